@@ -610,6 +610,15 @@ def stream_cdedb_read(seed, tier, workdir, stream):
                 nk = r.choice(["+", "0", "00"]) + k
                 if nk not in doc[coll]:
                     doc[coll][nk] = doc[coll].pop(k)
+            # the same for the keys of the event's parts and tracks (the selected ones among them)
+            evp = doc["event"]["parts"]
+            for pk in list(evp.keys()):
+                trs = evp[pk]["tracks"]
+                for tk in list(trs.keys()):
+                    if r.random() < 0.5:
+                        trs[r.choice(["+", "0", "00"]) + tk] = trs.pop(tk)
+                if r.random() < 0.3:
+                    evp[r.choice(["+", "0"]) + pk] = evp.pop(pk)
         elif i % 20 == 2:
             # the SAME id under two spellings, both present ("7" and "07"): a second course / registration
             # record with other contents (the id → index map keeps the last one in sorted order)
